@@ -51,6 +51,18 @@ def r1(ctx: Ctx) -> None:
     ctx.require(n >= 6, f"{ADD}: accepting paths not found")
 
 
+def _side_by_truth(ctx: Ctx, f, p: Path) -> None:
+    """the book files an order by the truth value of its side flag, so rounding must decide the same
+    way: an identity test against True sends truthy non-bool flags (numpy.bool_) to the sell branch"""
+    import ast as _ast
+
+    for c, pol, node in p.conds:
+        if key(strip_ver(c)) not in ("order.is_buy", "is_buy"):
+            continue
+        ident = isinstance(node, _ast.Compare) and any(isinstance(o, (_ast.Is, _ast.IsNot)) for o in node.ops) and any(isinstance(x, _ast.Constant) and isinstance(x.value, bool) for x in [node.left] + list(node.comparators))
+        ctx.check(not ident, f, node, "the side is decided by the flag's truth value, exactly as the order book files the order", "`if is_buy:`", _ast.unparse(node) if node is not None else "")
+
+
 @rule("C19.R2", "buy prices round down to the grid and sell prices round up; the result is that tick level times the same tick size", "T6 direction table + T7 product form", floor=2)
 def r2(ctx: Ctx) -> None:
     f = ctx.func(ADD)
@@ -65,6 +77,7 @@ def r2(ctx: Ctx) -> None:
         if not side:
             ctx.violated(f, st[0].node, "rounding direction depends on the order's side", "decision on order.is_buy", p.describe()[:160])
             continue
+        _side_by_truth(ctx, f, p)
         buy = side[0]
         v = strip_ver(st[0].value)
         level = None
@@ -93,6 +106,7 @@ def r2(ctx: Ctx) -> None:
     g = ctx.func("Market.convert_to_tick_level")
     for p in ctx.paths(g.qualname, inline=CHAIN):
         side = [pol for c, pol, _ in p.conds if key(strip_ver(c)) == "is_buy"]
+        _side_by_truth(ctx, g, p)
         r = strip_ver(p.exit[1]) if p.exit[0] == "return" else NONE
         ok = len(side) == 1 and r[0] == "call" and key(r[1]) == ("math.floor" if side[0] else "math.ceil")
         ctx.check(ok, g, g.node, "convert_to_tick_level: buy -> lower, sell -> upper", "floor for buys, ceil for sells", f"is_buy={side} -> {short(r)}")
